@@ -7,7 +7,7 @@ proof         : coq/prop/P_C18.v over model/M_Codec.v (proofs in proof/L_Codec.v
                 strings, levels and caps >= 0.
 regenerated   : constants, sentinel tuple, refusal guard, both read-size expressions, the three `total > cap` tests and the
                 default levels of vgi_rpc/_codec.py -> gen/G_Codec.v (translate/t_c18_codec.py, which also matches the
-                statement skeleton of the seven modelled functions); tie/T_Codec.v: gen_params = std_params by reflexivity
+                statement skeleton of the seven modelled functions); tie/T_Codec.v: gen_params = std_params gen_knobs by reflexivity
                 and the theorems restated over gen_params.
 correspondence: the REAL zstd / zlib libraries.  For every frame the libraries' own answers (declared size, one-shot
                 result, stream content, the chunk lengths the readers actually returned) are the model's environment; the
@@ -163,7 +163,7 @@ def run(ctx: Any) -> None:
                 "C18_zstd_loop_terminates",
             ],
             "T_Codec": [
-                "codec_params_tie", "C18_source_roundtrip_cap", "C18_source_roundtrip_nocap", "C18_source_zstd_frame_cap",
+                "codec_params_tie", "codec_chunk_ok", "C18_source_roundtrip_cap", "C18_source_roundtrip_nocap", "C18_source_zstd_frame_cap",
                 "C18_source_gzip_frame_cap", "C18_source_unknown_size_sentinel", "C18_source_requests_bounded",
             ],
         },
@@ -184,6 +184,10 @@ def run(ctx: Any) -> None:
     zstd_kinds = [k for k in ZSTD_KINDS_ALL if k != "arrow" or have_arrow]
     zstd_levels: list[int | None] = [None] + (list(range(-22, 23)) + [-131072, -1000] if thorough else [-131072, -5, 0, 1, 3, 9, 19, 22])
     gzip_levels: list[int | None] = [None, -1, 0, 1, 2, 3, 4, 5, 6, 7, 8, 9]
+    # streaming zstd compressors at high levels allocate their full window per object (~0.1 s each): the level quantifier of the
+    # property is about compress(); the streaming kinds get the cheap levels, and the expensive ones once
+    stream_levels: list[int | None] = [None, -131072, -5, 0, 1, 3, 9]
+    heavy_done = False
     for lv in zstd_levels:
         ctx.tally("zstd_level_offered", lv)
 
@@ -197,6 +201,7 @@ def run(ctx: Any) -> None:
     # model cases are grouped by payload (expanded once per group in Coq): key -> (payload term, size, [(sub input, expected, meta)])
     groups: dict[str, tuple[str, int, list[tuple[str, str, dict[str, Any]]]]] = {}
     law_failures: list[str] = []
+    hangs: list[str] = []
     fed_bad: list[str] = []
     trace_differs: list[str] = []
 
@@ -208,12 +213,12 @@ def run(ctx: Any) -> None:
         return "VCodecErr"
 
     def add_model_case(codec: str, cap: int | None, spec: list[tuple], d: bytes, raw: int, one: bytes | None, reads: list[int],
-                       data_ne: bool, eof: bool, decs: list[tuple[int, bool]], cls: str, out: bytes | None, reqs: list[int], meta: dict[str, Any]) -> None:
+                       data_ne: bool, eof: bool, decs: list[tuple[int, bool, bool]], cls: str, out: bytes | None, reqs: list[int], meta: dict[str, Any]) -> None:
         code = {"identity": 0, "zstd": 1, "gzip": 2}[codec]
         cap_t = "None" if cap is None else f"(Some ({cap}))"
         one_t = "None" if one is None else ("(Some None)" if one == d else f"(Some (Some {H.coq_bytes(one)}))")
         reads_t = "[" + "; ".join(str(x) for x in reads) + "]"
-        decs_t = "[" + "; ".join(f"({k}, {cbool(t)})" for k, t in decs) + "]"
+        decs_t = "[" + "; ".join(f"({k}, {cbool(t)}, {cbool(e)})" for k, t, e in decs) + "]"
         inp = f"({code}%N, {cap_t}, (({raw}), {one_t}, {reads_t}), ({cbool(data_ne)}, {cbool(eof)}, {decs_t}))"
         exp = f"({verdict_term(cls, out, d)}, [{'; '.join(f'({r})' for r in reqs)}])"
         pterm = H.coq_spec(spec)
@@ -279,6 +284,16 @@ def run(ctx: Any) -> None:
                     cls, out, msg, _ = H.run_decompress(codec, frame, cap, trace=False, sentinel_minus1=True)
                 ctx.count("impl_runs")
             repl["observed"] = [cls, msg[:160], None if out is None else len(out)]
+            if cls == "hang":
+                # the call never returned.  For a compressor-produced frame that is a violation of the property; for the frames
+                # outside the statement it is recorded (the gzip loop spins on trailing input after the end-of-stream marker when
+                # the output exceeds one read chunk -- reported under C17) and not modelled.
+                if produced:
+                    ctx.violation(f"hang:{codec}:{kind}", "decompress did not return", repl)
+                else:
+                    hangs.append(f"{codec}:{kind} len={len(d)} cap={cap}")
+                ctx.case([codec, kind, level, klass, len(d), zlib.crc32(d), cap, sentinel], nontrivial=False)
+                continue
             if produced:
                 oracle(codec, kind, d, cap, cls, out, msg, repl)
             ctx.case([codec, kind, level, klass, len(d), zlib.crc32(d), cap, sentinel], nontrivial=codec != "identity" and cap is not None)
@@ -310,11 +325,11 @@ def run(ctx: Any) -> None:
                     left -= k
                 add_model_case(codec, cap, pspec, payload, raw, ans["oneshot"], reads, True, True, [], cls, out, reqs, repl)
             elif codec == "gzip":
-                reqs = [n for n, _, _ in tr.decs]
-                for n, k, tail in tr.decs:
+                reqs = [n for n, _, _, _ in tr.decs]
+                for n, k, tail, _e in tr.decs:
                     if n >= 1 and (k > n or (tail and k < 1)):
                         law_failures.append(f"zlib decompress(.., {n}) returned {k} bytes, tail={tail}")
-                add_model_case(codec, cap, pspec, payload, 0, None, [], len(frame) > 0, bool(ans["eof"]), [(k, t) for _, k, t in tr.decs], cls, out, reqs, repl)
+                add_model_case(codec, cap, pspec, payload, 0, None, [], len(frame) > 0, bool(ans["eof"]), [(k, t, e) for _, k, t, e in tr.decs], cls, out, reqs, repl)
             else:
                 add_model_case(codec, cap, pspec, payload, 0, None, [], len(frame) > 0, True, [], cls, out, [], repl)
 
@@ -326,8 +341,8 @@ def run(ctx: Any) -> None:
         n = len(d)
         exh = klass.startswith("exh")
         cuts = sorted(rng.randrange(n + 1) for _ in range(rng.choice([0, 1, 3]))) if n else []
-        # in the thorough tier the full-alphabet sweep is oracle-only except for a sample (the model is blind to byte values)
-        do_model = not (thorough and klass == "exh-full" and n == 2 and idx % 16 != 0)
+        # (the model is blind to byte values: for the exhaustive sweeps the oracle sees every string, the model a sample)
+        do_model = not (exh and n >= 1 and idx % (16 if thorough and klass == "exh-full" and n == 2 else 4) != 0)
         if exh:
             zk = ["api", "nosize", "cobj"] if not (thorough and klass == "exh-full" and n == 2) else ["api", "cobj"]
             gk = ["api"]
@@ -339,9 +354,12 @@ def run(ctx: Any) -> None:
         for kind in zk:
             levels: list[int | None] = [None] if exh or kind != "api" else [None, rng.choice(zstd_levels)]
             if kind != "api" and not exh:
-                levels = [rng.choice(zstd_levels)]
-            if idx in sweep_idx and kind in ("api", "cobj"):
+                levels = [rng.choice(stream_levels)]
+            if idx in sweep_idx and kind == "api":
                 levels = zstd_levels
+            if idx in sweep_idx and kind == "cobj":
+                levels = stream_levels + ([] if heavy_done else [19, 22])
+                heavy_done = True
             for lv in levels:
                 ctx.tally("zstd_level", lv)
                 one_frame("zstd", kind, lv, spec, d, H.zstd_frame(kind, d, lv, cuts), cuts, produced=True, do_model=do_model, klass=klass)
@@ -385,6 +403,8 @@ def run(ctx: Any) -> None:
     ctx.sample({"codec": "gzip", "kind": "api", "len": 131073, "cap": 131073, "expected": "original bytes; max_length sequence 65536, 65536, 2, 1"})
 
     ctx.log(f"implementation runs done: {ctx.counters.get('impl_runs', 0)} calls, {ctx.counters.get('traced_runs', 0)} traced")
+    if hangs:
+        ctx.notes.append(f"{len(hangs)} calls on frames OUTSIDE the statement did not return (watchdog): {hangs[:4]}")
     # ---- environment: the assumed codec laws held on everything we looked at --------------
     ctx.obligation("env:codec-laws-hold-on-sampled-frames", "environment", not law_failures, "; ".join(law_failures[:5]))
     ctx.obligation("env:gzip-input-fed-whole-and-in-order", "environment", not fed_bad, "; ".join(fed_bad[:5]))
@@ -393,7 +413,7 @@ def run(ctx: Any) -> None:
     # ---- model side ------------------------------------------------------------------
     gen_ok = not any(o["name"] == "translate:G_Codec" and not o["ok"] for o in ctx.obligations)
     header = HEADER if gen_ok else HEADER.replace(" G_Codec", "")
-    runner = "run_case gen_eof_check" if gen_ok else "run_case false"
+    runner = "run_case gen_knobs" if gen_ok else "run_case today"
     small: list[tuple[str, str]] = []
     small_meta: list[list[tuple[str, str, dict[str, Any]]]] = []
     big: list[tuple[str, str]] = []
@@ -408,8 +428,8 @@ def run(ctx: Any) -> None:
             (big if size > 20000 else small).append(case)
             (big_meta if size > 20000 else small_meta).append(part)
     ctx.log(f"model: {n_sub} calls in {len(small)} small + {len(big)} large payload groups")
-    ok1, bad1, log1 = ctx.coq_mismatches(header, runner, "outs_eqb", small, "case_in", "list (verdict * list Z)", shard=max(1, len(small) // 32 + 1))
-    ok2, bad2, log2 = ctx.coq_mismatches(header, runner, "outs_eqb", big, "case_in", "list (verdict * list Z)", shard=1)
+    ok1, bad1, log1 = ctx.coq_mismatches(header, runner, "outs_eqb", small, "case_in", "list (verdict * list Z)", shard=max(1, len(small) // 16 + 1))
+    ok2, bad2, log2 = ctx.coq_mismatches(header, runner, "outs_eqb", big, "case_in", "list (verdict * list Z)", shard=max(1, len(big) // 16 + 1))
     ctx.count("model_cases", n_sub)
     ok = ok1 and ok2
     nbad = len(bad1) + len(bad2)
